@@ -435,7 +435,7 @@ func TestC02(t *testing.T) {
 					outOfOrder = true
 				}
 				tx := open[k]
-				code := rapid.SampledFrom([]int{100, 180, 183, 200, 202, 404, 486, 503, 603}).Draw(rt, "status")
+				code := gTxStatus(rt, "status")
 				if tx.Answers >= 3 && code < 200 {
 					code = 200
 				}
